@@ -365,10 +365,10 @@ def run(ctx):
         if ci % 2 == 1:
             # an application-wide default resolver that only knows the application's own objects
             from py_gql.execution.default_resolver import default_resolver as library_default
-            from ..gen.world import LazyDict, LazyObject
+            from ..gen.world import LazyDict, LazyMapping, LazyObject
 
             def application_default(root, context, info, **args):
-                if isinstance(root, (LazyDict, LazyObject, dict)) or root is None:
+                if isinstance(root, (LazyDict, LazyMapping, LazyObject, dict)) or root is None:
                     return library_default(root, context, info, **args)
                 raise TypeError("the application's default resolver was handed a %s" % type(root).__name__)
 
